@@ -32,6 +32,9 @@ OWNER = 1
 # --------------------------------------------------------------------------- cases
 # case dict: P, fixed, num, del ('F'|'M'), seed, I = per rank list of (g, a, pub, l) sorted by g, D = per rank sorted globals
 
+OPT_DEFAULT = dict(nb=0, self=0, ign=0, gt=0, twice=0, nobar=0)
+
+
 def fmt_case(c):
     t = [c["P"], c["fixed"], c["num"], c["del"], c["seed"]]
     for r in c["I"]:
@@ -44,6 +47,15 @@ def fmt_case(c):
         t.append(len(c["forget"]))
         for a, b in c["forget"]:
             t += [a, b]
+    for k in ("nb", "self", "ign", "gt", "twice", "nobar"):
+        if c.get(k):
+            t.append("%s=%d" % (k, c[k]))
+    if c.get("nb"):
+        for p, h in enumerate(c.get("hints") or []):
+            if h:
+                t.append("h%d=%s" % (p, ",".join(map(str, h))))
+    if c.get("grow"):
+        t.append("grow=" + ";".join("%d:%d:%d:%d:%s" % (g["p"], g["g"], g["a"], g["l"], "+".join("%d.%d" % x for x in g["to"])) for g in c["grow"]))
     return " ".join(map(str, t))
 
 
@@ -58,63 +70,110 @@ def parse_case(line):
     for _ in range(P):
         m = int(t[i]); i += 1
         D.append([int(x) for x in t[i:i + m]]); i += m
-    forget = []
-    if i < len(t):
+    c = dict(P=P, fixed=fixed, num=num, seed=seed, I=I, D=D, forget=[], hints=[[] for _ in range(P)], grow=[], **{"del": dl})
+    c.update(OPT_DEFAULT)
+    if i < len(t) and "=" not in t[i]:
         nf = int(t[i]); i += 1
-        forget = [(int(t[i + 2 * k]), int(t[i + 2 * k + 1])) for k in range(nf)]
-    return dict(P=P, fixed=fixed, num=num, seed=seed, I=I, D=D, forget=forget, **{"del": dl})
+        c["forget"] = [(int(t[i + 2 * k]), int(t[i + 2 * k + 1])) for k in range(nf)]; i += 2 * nf
+    for tok in t[i:]:
+        k, v = tok.split("=", 1)
+        if k in OPT_DEFAULT:
+            c[k] = int(v)
+        elif k[0] == "h":
+            c["hints"][int(k[1:])] = [int(x) for x in v.split(",") if x]
+        elif k == "grow":
+            for one in v.split(";"):
+                f = one.split(":")
+                c["grow"].append(dict(p=int(f[0]), g=int(f[1]), a=int(f[2]), l=int(f[3]),
+                                      to=[tuple(int(y) for y in x.split(".")) for x in f[4].split("+")]))
+    return c
 
 
 def lstr(l):
     return "max" if l < 0 else str(l)
 
 
-def world_after_rebuild(c, deleted=False):
-    """The state RemoteIndices::rebuild<false>() produces for a decomposition with at most one copy of a global index per
-    rank (pairwise intersection of the public copies, ascending global index), optionally after deleting the copies c['D']
-    together with their remote entries.  Rank dump in the format of harness/C13/impl.cc."""
+def forgotten(c, p, q):
+    return (p, q) in (c.get("forget") or []) or (q, p) in (c.get("forget") or [])
+
+
+def world_struct(c, stage):
+    """(isets, lists): isets[p] = sorted [(g, a, pub, l)], lists[p] = {q: [(g, la, ra)] ascending g}.
+    stage 'B': the state RemoteIndices::rebuild produces for a decomposition with at most one copy of a global index per rank --
+    pairwise intersection of the public copies (all copies with ignorePublic), restricted to the hinted neighbours when neighbour
+    hints are given (nb > 0; pairs that forgot each other are simply not hinted), a list exactly when non-empty.
+    stage 'D': after forgetting (nb == 0), deleting the copies c['D'] with their remote entries (lists kept when empty) and growing."""
     P = c["P"]
     full = [sorted(r) for r in c["I"]]
-    pubs = [{q[0]: q[1] for q in r if q[2]} for r in full]
-    res = []
+    pubs = [{q[0]: q[1] for q in r if (q[2] or c.get("ign"))} for r in full]
+    isets, lists = [], []
     for p in range(P):
-        dels = set(c["D"][p]) if deleted else set()
-        iset = [q for q in full[p] if q[0] not in dels]
-        posn = {q[0]: k for k, q in enumerate(iset)}
-        s = "I" + "".join(" %d.%d.%s.%d" % (q[0], q[1], lstr(q[3]), q[2]) for q in iset) + " R"
+        dels = set(c["D"][p]) if stage == "D" else set()
+        isets.append([q for q in full[p] if q[0] not in dels])
+        L = {}
         for q in range(P):
             if q == p:
                 continue
             common = sorted(set(pubs[p]) & set(pubs[q]))
             if not common:
                 continue
-            if deleted and ((p, q) in c.get("forget", []) or (q, p) in c.get("forget", [])):
-                continue                      # the two ranks forgot each other: no list at all
-            ents = ["%d.%d.%d.%d" % (g, pubs[p][g], pubs[q][g], posn[g]) for g in common if g not in dels]
-            s += " %d:%s" % (q, ",".join(ents))
+            if c.get("nb"):
+                if q not in c["hints"][p] or p not in c["hints"][q]:
+                    continue
+            elif stage == "D" and forgotten(c, p, q):
+                continue
+            L[q] = [(g, pubs[p][g], pubs[q][g]) for g in common if g not in dels]
+        lists.append(L)
+    if stage == "D":
+        for gr in c.get("grow") or []:
+            p = gr["p"]
+            isets[p] = sorted(isets[p] + [(gr["g"], gr["a"], 1, gr["l"])])
+            for q, ra in gr["to"]:
+                lists[p][q] = sorted(lists[p].get(q, []) + [(gr["g"], gr["a"], ra)])
+    return isets, lists
+
+
+def world_after_rebuild(c, deleted=False):
+    """rank dumps in the format of harness/C13/impl.cc for stage B (deleted=False) or D"""
+    isets, lists = world_struct(c, "D" if deleted else "B")
+    res = []
+    for p in range(c["P"]):
+        posn = {q[0]: k for k, q in enumerate(isets[p])}
+        s = "I" + "".join(" %d.%d.%s.%d" % (q[0], q[1], lstr(q[3]), q[2]) for q in isets[p]) + " R"
+        for q in sorted(lists[p]):
+            s += " %d:%s" % (q, ",".join("%d.%d.%d.%d" % (g, la, ra, posn[g]) for g, la, ra in lists[p][q]))
         res.append(s + " Y 1")
     return " / ".join(res)
 
 
+def restore_judged(c):
+    """the restore post-condition speaks of the rebuilt state of a full rebuild: not judged when knowledge was restricted or
+    extended by hand, or when (ignorePublic) a deleted copy was non-public: re-added pairs are public by construction"""
+    if c.get("forget") or c.get("grow"):
+        return False
+    if c.get("ign"):
+        for p, r in enumerate(c["I"]):
+            if any((not q[2]) and q[0] in c["D"][p] for q in r):
+                return False
+    return True
+
+
 def strip_obs(world, keepY=True):
-    """drop the numberer-call record (and optionally the synced flag) of a world dump"""
-    out = []
-    for r in world.split(" / "):
-        r = re.sub(r" N [0-9,]*$| N $", "", r.rstrip())
-        r = re.sub(r" N$", "", r)
-        if not keepY:
-            r = re.sub(r" Y [01]$", "", r)
-        out.append(r)
-    return " / ".join(out)
+    """drop the numberer-call records (and optionally the synced flags) of a world dump or of a whole impl line"""
+    w = re.sub(r" N [0-9,]+", "", world)
+    w = re.sub(r" N(?= |$)", "", w)
+    w = re.sub(r" +(?= [/#])", "", w).rstrip()
+    if not keepY:
+        w = re.sub(r" Y [01](?= |$)", "", w)
+    return w
 
 
 def orders_of(c, rng):
     """per rank the order in which the model processes its sources: ascending for fixed order, a seeded permutation otherwise"""
-    P = c["P"]
-    pubs = [{q[0] for q in r if q[2]} for r in c["I"]]
+    _, lists = world_struct(c, "D")
     res = []
-    for p in range(P):
-        nb = [q for q in range(P) if q != p and pubs[p] & pubs[q] and (p, q) not in c.get("forget", []) and (q, p) not in c.get("forget", [])]
+    for p in range(c["P"]):
+        nb = sorted(lists[p])
         if not (c["fixed"] and c["num"] != 0):
             rng.shuffle(nb)
         res.append(",".join(map(str, nb)) if nb else "-")
@@ -125,7 +184,7 @@ def gen_one(rng, NP, force=None):
     force = force or {}
     P = force.get("P", rng.choice([1, 2, 2, 3, 3, 3, 4, 4, 4][:max(1, min(9, 3 * NP - 3))] if NP < 4 else [1, 2, 2, 3, 3, 3, 4, 4, 4]))
     P = min(P, NP)
-    U = rng.choice([1, 2, 3, 4, 5, 6, 8, 10])
+    U = rng.choice([1, 2, 3, 4, 5, 6, 8, 10]) if rng.random() > .012 else rng.choice([101, 150])   # (large: beyond one chunk of 100)
     shape = rng.choice(["random", "random", "chain", "star", "all", "third"])
     I = [[] for _ in range(P)]
     base = rng.choice([0, 0, 3, 100])
@@ -172,14 +231,53 @@ def gen_one(rng, NP, force=None):
     fixed = force.get("fixed", rng.choice([0, 1]))
     dl = force.get("del", rng.choice(["M", "M", "m"]) if rng.random() < .18 else "F")
     seed = 0 if rng.random() < .2 else rng.randrange(1, 1 << 30)
-    forget = []
+    c = dict(P=P, fixed=fixed, num=num, seed=seed, I=I, D=D, forget=[], hints=[[] for _ in range(P)], grow=[], **{"del": dl})
+    c.update(OPT_DEFAULT)
+    # ---- how the remote indices are built: ring / neighbour hints (constructor argument or setNeighbours), includeSelf, ignorePublic
+    c["ign"] = force.get("ign", 1 if rng.random() < .15 else 0)
+    c["self"] = force.get("self", 1 if rng.random() < .15 else 0)
+    c["gt"] = force.get("gt", 1 if rng.random() < .25 else 0)
+    c["twice"] = force.get("twice", rng.choice([0, 0, 0, 0, 0, 0, 1, 1, 2, 2]))
+    c["nobar"] = 1 if (c["twice"] and rng.random() < .4) else 0      # no barrier between the two syncs
+    pubs = [{q[0] for q in r if (q[2] or c["ign"])} for r in I]
     if P >= 3 and dl == "F" and rng.random() < .15:
         # partial knowledge: some pairs of ranks that share public indices do not know of each other
-        pubs = [{q[0] for q in r if q[2]} for r in I]
         pairs = [(a, b) for a in range(P) for b in range(a + 1, P) if pubs[a] & pubs[b]]
         rng.shuffle(pairs)
-        forget = pairs[:rng.choice([1, 1, 2])]
-    return dict(P=P, fixed=fixed, num=num, seed=seed, I=I, D=D, forget=forget, **{"del": dl})
+        c["forget"] = pairs[:rng.choice([1, 1, 2])]
+    if P >= 2 and force.get("nb", rng.random() < .5):
+        c["nb"] = rng.choice([1, 2])
+        H = [set() for _ in range(P)]
+        for a in range(P):
+            for b in range(a + 1, P):
+                if (pubs[a] & pubs[b]) and not forgotten(c, a, b):
+                    H[a].add(b); H[b].add(a)
+                elif not forgotten(c, a, b) and rng.random() < .2:
+                    H[a].add(b); H[b].add(a)          # a superset of the true neighbour graph is allowed
+        for a in range(P):                            # neighbour mode needs a non-empty hint set on every rank
+            if not H[a]:
+                b = next(x for x in [(a + 1) % P, (a + P - 1) % P] + list(range(P)) if x != a and not forgotten(c, a, x)) \
+                    if any(x != a and not forgotten(c, a, x) for x in range(P)) else (a + 1) % P
+                H[a].add(b); H[b].add(a)
+        if any(forgotten(c, a, b) for a in range(P) for b in H[a]):
+            c["forget"] = [f for f in c["forget"] if f[1] not in H[f[0]]]
+        c["hints"] = [sorted(h) for h in H]
+    # ---- growth by hand: a rank adds a new pair and tells some of its neighbours (RemoteIndexListModifier<..,true>::insert)
+    if P >= 2 and force.get("grow", rng.random() < .15):
+        _, lists = world_struct(c, "D")
+        allg = {q[0] for r in I for q in r}
+        fresh = max(allg | {0}) + 1
+        for k in range(rng.choice([1, 1, 2])):
+            cand = [p for p in range(P) if lists[p]]
+            if not cand:
+                break
+            p = rng.choice(cand)
+            to = rng.sample(sorted(lists[p]), min(len(lists[p]), rng.choice([1, 1, 2])))
+            g = fresh + k * rng.choice([1, 3])
+            if any(gr["g"] == g for gr in c["grow"]):
+                g = fresh + 10 + k
+            c["grow"].append(dict(p=p, g=g, a=rng.choice([1, 2, 3]), l=50 + k, to=[(q, rng.choice([1, 2, 3])) for q in sorted(to)]))
+    return c
 
 
 def corpus_cases():
@@ -217,12 +315,19 @@ def run_impl(ctx, exe, np, cases, tag, case_timeout=30, env_extra=None, max_bad=
     return out
 
 
+def sections(l):
+    """[B, D, S] or [B, D, S, T] of an impl line, None when there is no observation"""
+    if is_noobs(l) or l.count(" # ") not in (2, 3):
+        return None
+    return [x[2:] for x in l.split(" # ")]
+
+
 def s_of(l):
     """the S world of an impl line (None when there is none)"""
-    if is_noobs(l) or l.count(" # ") != 2:
+    sec = sections(l)
+    if sec is None:
         return None
-    S = l.split(" # ")[2][2:]
-    return None if S.startswith("SKIPPED") else strip_obs(S)
+    return None if sec[2].startswith("SKIPPED") else strip_obs(sec[2])
 
 
 def model_lines(ctx, model, pcs, orders, impl_S, tag):
@@ -291,10 +396,11 @@ def judge(c, line, impl, m2, exp_B, exp_D):
     asis, fixed, fl, vd = sm
     if is_noobs(impl):
         return "violation", "C13:sync:no-result", "sync() did not complete on every rank: %s" % impl[:160]
-    try:
-        B, D, S = [x[2:] for x in impl.split(" # ")]
-    except Exception:
+    sec = sections(impl)
+    if sec is None:
         return "corr", "corr:C13/dump", "unreadable impl line"
+    B, D, S = sec[:3]
+    T = sec[3] if len(sec) > 3 else None
     if strip_obs(B) != exp_B:
         return "corr", "corr:C13/rebuild", "state after RemoteIndices::rebuild differs from the pairwise intersection (C04 territory)"
     if strip_obs(D, False) != strip_obs(exp_D, False):
@@ -307,8 +413,8 @@ def judge(c, line, impl, m2, exp_B, exp_D):
     if S.startswith("SKIPPED"):
         return "corr", "corr:C13/delete", "harness skipped sync: state after deletion has dangling or unordered remote entries"
     bad = [k for k in ("sv", "mono", "compl", "synced") if vd.get(k) != "1"]
-    if vd.get("pre") == "1" and vd.get("restore") != "1" and not c.get("forget"):
-        bad.append("restore")          # (with forgotten neighbours the state before the deletion is not the rebuilt one)
+    if vd.get("pre") == "1" and vd.get("restore") != "1" and restore_judged(c):
+        bad.append("restore")
     Sx = strip_obs(S)
     if bad:
         why = ""
@@ -320,6 +426,16 @@ def judge(c, line, impl, m2, exp_B, exp_D):
         return "violation", "C13:numberer:calls", nr
     if Sx != fixed:
         return "corr", "corr:C13/sync", "impl state after sync differs from the model's (oracle accepts the impl's state)"
+    if c.get("twice"):
+        which = "same-object" if c["twice"] == 2 else "fresh-object"
+        if T is None:
+            return "violation", "C13:sync:second-call-" + which, "no observation of the second sync"
+        # sync is a fixpoint only on FULL knowledge (C13_sync_idempotent: consistent worlds); with restricted hints, forgotten
+        # neighbours or hand-grown pairs a second round may legitimately spread what the first one restored
+        if restore_judged(c) and not c.get("nb") and vd.get("pre") == "1" and strip_obs(T) != Sx:
+            return "violation", "C13:sync:second-call-" + which, "a second sync() on the synced state changed it (C13_sync_idempotent): [%s]" % strip_obs(T)
+        if re.search(r" N [0-9]", T):
+            return "violation", "C13:sync:second-call-" + which, "the second sync() asked the numberer for an index although nothing is added"
     return "ok", "", ""
 
 
@@ -342,11 +458,11 @@ def run(ctx):
     rng = ctx.rng("gen")
     cases = [parse_case(l) for l in corpus_cases()]
     ncorp = len(cases)
-    N = 2000 if quick else 12000
+    N = 1500 if quick else 12000
     for n in range(N):
         cases.append(gen_one(rng, NP))
     # small exhaustive-ish scope: 2 and 3 ranks, every deletion subset of a fixed 3-rank decomposition with third-party knowledge
-    base = dict(P=3, fixed=1, num=1, seed=0, forget=[], I=[[(1, 1, 1, 0), (2, 2, 1, 1), (4, 3, 1, 2)], [(1, 2, 1, 1), (2, 1, 1, 0), (3, 1, 1, 2)],
+    base = dict(P=3, fixed=1, num=1, seed=0, forget=[], hints=[[], [], []], grow=[], nb=0, self=0, ign=0, gt=0, twice=0, nobar=0, I=[[(1, 1, 1, 0), (2, 2, 1, 1), (4, 3, 1, 2)], [(1, 2, 1, 1), (2, 1, 1, 0), (3, 1, 1, 2)],
                                                 [(1, 3, 1, 0), (2, 3, 1, 1), (3, 2, 1, 2), (4, 1, 1, 3)]], **{"del": "F"})
     copies = [(r, q[0]) for r in range(3) for q in base["I"][r] if q[1] != OWNER]
     for mask in range(1 << len(copies)):
@@ -361,22 +477,84 @@ def run(ctx):
     ctx.log("generated %d cases (%d corpus)" % (len(cases), ncorp))
 
     sel = list(range(len(cases)))            # every generated case runs on the impl
-    skipped = 0
+    # ---- probes for the two defects found by the API audit (fixes/C13-4, C13-5): while the tree still has them, the cases that
+    #      only crash on them are re-routed (same IndicesSyncer object twice -> fresh object; growth -> NDEBUG build only)
+    defect = {}
+    probes = [("C13:sync:second-call-same-object", lambda c: c["twice"] == 2 and not c["grow"],
+               "sync() called a second time on the same IndicesSyncer object does not complete (infoSend_ is never cleared)"),
+              ("C13:RemoteIndexListModifier:insert:assert-at-end", lambda c: bool(c["grow"]) and c["twice"] != 2,
+               "RemoteIndexListModifier<..,true>::insert(index, global) at the end of a list dereferences end() in its assertion")]
+    for sig, pred, what in probes:
+        i0 = next((i for i in sel if pred(cases[i])), None)
+        if i0 is None:
+            continue
+        r = run_impl(ctx, impl, NP, [lines[i0]], "probe", case_timeout=20)
+        if is_noobs(r[0]):
+            r = run_impl(ctx, impl, NP, [lines[i0]], "probe2", case_timeout=60)       # (once more, alone, before it is believed)
+        defect[sig] = is_noobs(r[0])
+        if defect[sig]:
+            ctx.violation(sig, {"case": lines[i0], "impl": r[0], "oracle": what, "replay_cmd": "bin/check C13 --replay <this file>"})
+    # back-to-back syncs without a barrier, arrival-order processing (fixes/C13-6): schedule dependent (hang or mixed rounds), so it is
+    # tested by a dedicated batch -- a few cases repeated many times with different shim seeds, compared with their barrier run --
+    # and arrival-order cases of the main batch always keep the barrier (fixed-order cases run without it)
+    sig6 = "C13:sync:back-to-back:any-source"
+    cand6 = [i for i in sel if cases[i]["nobar"] and cases[i]["twice"] and not cases[i]["grow"] and cases[i]["P"] >= 3
+             and not (cases[i]["fixed"] and cases[i]["num"]) and cases[i]["del"] != "m"][:3]
+    defect[sig6] = False
+    b2b_reps = 0
+    for i6 in cand6:
+        c6 = dict(cases[i6]); c6["twice"] = 1; c6["nobar"] = 0
+        ref = run_impl(ctx, impl, NP, [fmt_case(c6)], "probe6r", case_timeout=20)[0]
+        if is_noobs(ref):
+            continue
+        c6["nobar"] = 1
+        reps = []
+        for k in range(100 if quick else 400):
+            c6["seed"] = 1000 + 7919 * k; reps.append(fmt_case(c6))
+        r = run_impl(ctx, impl, NP, reps, "probe6", case_timeout=6, max_bad=1)
+        bad = next((k for k, x in enumerate(r) if not x.startswith("NOT-RUN") and (is_noobs(x) or strip_obs(x) != strip_obs(ref))), None)
+        b2b_reps += len(r) if bad is None else bad + 1
+        if bad is not None:
+            defect[sig6] = True
+            ctx.violation(sig6, {"case": reps[bad], "impl": r[bad], "impl_with_barrier": ref, "repetitions_before_failure": bad,
+                                 "oracle": "two consecutive sync() rounds without a barrier, arrival-order processing: MPI_Probe(MPI_ANY_SOURCE) takes a faster "
+                                           "neighbour's message of the NEXT round; the round hangs or unpacks the wrong message (schedule dependent; "
+                                           "useFixedOrder=true is immune)"})
+            break
+    for i in sel:
+        if cases[i]["nobar"] and not (cases[i]["fixed"] and cases[i]["num"]):
+            cases[i] = dict(cases[i]); cases[i]["nobar"] = 0; lines[i] = fmt_case(cases[i])
+    d_same, d_grow = defect.get(probes[0][0], False), defect.get(probes[1][0], False)
+    if d_same:
+        for i in sel:
+            if cases[i]["twice"] == 2:
+                cases[i] = dict(cases[i]); cases[i]["twice"] = 1; lines[i] = fmt_case(cases[i])
+        ctx.notes.append("tree fails the same-object probe: twice=2 cases run with a fresh IndicesSyncer for the second sync")
     sub_lines = [lines[i] for i in sel]
-    io = run_impl(ctx, impl, NP, sub_lines, "impl", case_timeout=20 if quick else 40)
+    if os.environ.get("C13_DUMP_CASES"):
+        open(os.environ["C13_DUMP_CASES"], "w").write("\n".join(sub_lines) + "\n")
+    chk = [j for j, i in enumerate(sel) if not (d_grow and cases[i]["grow"])]          # cases the checked (assert) build can run
+    if d_grow:
+        ctx.notes.append("tree fails the growth probe: %d growth cases are observed through the NDEBUG build only" % (len(sel) - len(chk)))
+    r_chk = run_impl(ctx, impl, NP, [sub_lines[j] for j in chk], "impl", case_timeout=20 if quick else 40)
+    io_chk = dict(zip(chk, r_chk))
     # a timed-out case is re-run once alone before it is believed
     nh = 0
-    for j, l in enumerate(io):
-        if ("HANG" in l) and nh < 3:
+    for j in chk:
+        if ("HANG" in io_chk[j]) and nh < 3:
             nh += 1
-            io[j] = run_impl(ctx, impl, NP, [sub_lines[j]], "hc%d" % j, case_timeout=60)[0]
+            io_chk[j] = run_impl(ctx, impl, NP, [sub_lines[j]], "hc%d" % j, case_timeout=60)[0]
+    # NDEBUG build (assertions off, -O2): every case
+    io_nd = run_impl(ctx, impl_nd, NP, sub_lines, "ndebug", case_timeout=20 if quick else 40, max_bad=6) if impl_nd else [None] * len(sub_lines)
+    io = [io_chk.get(j, io_nd[j]) for j in range(len(sub_lines))]
     impl_S = []
     for l in io:
         impl_S.append(s_of(l))
     m2 = model_lines(ctx, model, [cases[i] for i in sel], [orders[i] for i in sel], impl_S, "model2")
 
     nviol = ncorr = 0
-    dist = {"P": {}, "del": {}, "num": {}, "fixed": {}, "deleted_copies": {}, "forgotten_neighbour_pairs": {}, "restore_pre": {}, "new_entries": 0,
+    dist = {"P": {}, "del": {}, "num": {}, "fixed": {}, "deleted_copies": {}, "forgotten_neighbour_pairs": {}, "neighbour_hints": {}, "includeSelf": {},
+            "ignorePublic": {}, "global_index_type": {}, "second_sync": {}, "second_sync_without_barrier": {}, "grown_pairs": {}, "large": {}, "restore_pre": {}, "new_entries": 0,
             "new_neighbours_discovered": 0}
     nontrivial = set()
     oi_bad = cnt_bad = 0
@@ -388,14 +566,16 @@ def run(ctx):
         kinds.append(kind)
         sm = split_model(m2[j])
         for k, v in (("P", c["P"]), ("del", c["del"]), ("num", c["num"]), ("fixed", c["fixed"]), ("deleted_copies", min(9, sum(len(d) for d in c["D"]))),
-                     ("forgotten_neighbour_pairs", len(c.get("forget") or []))):
+                     ("forgotten_neighbour_pairs", len(c.get("forget") or [])), ("neighbour_hints", c["nb"]), ("includeSelf", c["self"]),
+                     ("ignorePublic", c["ign"]), ("global_index_type", "long/N=100" if c["gt"] else "int/N=4"), ("second_sync", c["twice"]), ("second_sync_without_barrier", c["nobar"]),
+                     ("grown_pairs", len(c["grow"])), ("large", 1 if max(len(r) for r in c["I"]) > 50 else 0)):
             dist[k][str(v)] = dist[k].get(str(v), 0) + 1
         if sm:
             dist["restore_pre"][sm[3].get("pre", "?")] = dist["restore_pre"].get(sm[3].get("pre", "?"), 0) + 1
             if sm[2].get("oi") != "1": oi_bad += 1
             if sm[2].get("cnt") != "1": cnt_bad += 1
             if sm[1] != strip_obs(expD): dist["new_entries"] += 1
-            if c.get("forget") and [len(re.findall(r" \d+:", r)) for r in sm[1].split(" / ")] != [len(re.findall(r" \d+:", r)) for r in expD.split(" / ")]:
+            if (c.get("forget") or c.get("grow")) and [len(re.findall(r" \d+:", r)) for r in sm[1].split(" / ")] != [len(re.findall(r" \d+:", r)) for r in expD.split(" / ")]:
                 dist["new_neighbours_discovered"] += 1
         if any(c["D"]) and c["P"] > 1:
             nontrivial.add(lines[i])
@@ -415,7 +595,7 @@ def run(ctx):
     # ---- sanitizer build on a subsample of the cases that ran without complaint
     san_n = san_bad = 0
     if impl_san:
-        okidx = [j for j in range(len(sel)) if kinds[j] == "ok" and cases[sel[j]]["del"] != "m"][:: (6 if quick else 3)]
+        okidx = [j for j in chk if kinds[j] == "ok" and cases[sel[j]]["del"] != "m"][:: (6 if quick else 3)]
         so = run_impl(ctx, impl_san, NP, [sub_lines[j] for j in okidx], "san", case_timeout=60, max_bad=6)
         san_n = len(okidx)
         for j, l in zip(okidx, so):
@@ -426,12 +606,12 @@ def run(ctx):
                 if san_bad <= 3:
                     ctx.violation("C13:sanitizer", {"case": sub_lines[j], "impl": io[j], "impl_sanitized_build": l,
                                                     "oracle": "ASan/UBSan build aborts or behaves differently"})
-    # ---- NDEBUG build (assertions off, -O2): same observations on every case
+    # ---- NDEBUG build: same observations as the checked build on every case both ran
     nd_n = nd_bad = 0
     if impl_nd:
-        no = run_impl(ctx, impl_nd, NP, sub_lines, "ndebug", case_timeout=20 if quick else 40, max_bad=6)
-        for j, l in enumerate(no):
-            if l.startswith("NOT-RUN"):
+        for j in chk:
+            l = io_nd[j]
+            if l is None or l.startswith("NOT-RUN"):
                 continue
             nd_n += 1
             if strip_obs(l) != strip_obs(io[j]):      # (the numberer call ORDER may differ with the arrival order)
@@ -443,7 +623,10 @@ def run(ctx):
         "evaluations": len(sel), "distinct_nontrivial": len(nontrivial),
         "rule": "cases = corpus + seeded decompositions (P<=4, <=10 globals, shapes random/chain/star/all/third-party, one owner per global, "
                 "overlap/copy attributes, 5% non-public copies) x random deletion sets of non-owner copies x numberer {default, old numbers, 1000+g} x "
-                "useFixedOrder x deletion path {free functions, RemoteIndexListModifier<true>} x PMPI seed + all 2^k deletion subsets of one 3-rank decomposition; "
+                "useFixedOrder x deletion path {free functions, RemoteIndexListModifier<true>} x PMPI seed x rebuild mode {ring, neighbour hints via constructor / "
+                "setNeighbours, exact / superset / restricted} x includeSelf x ignorePublic x {int/chunk 4, long+2^40/chunk 100} x hand-grown pairs "
+                "(modifier insert(index, global)) x second sync (fresh / same syncer object) x 1.2% large sets (101/150 globals) "
+                "+ all 2^k deletion subsets of one 3-rank decomposition; "
                 "non-trivial = P>1 and at least one copy deleted; distinct = distinct case lines",
         "samples": [lines[i] for i in sel[:2]] + [lines[i] for i in sel[len(sel) // 2: len(sel) // 2 + 2]],
         "distribution": dist, "generated": len(cases),
@@ -451,7 +634,7 @@ def run(ctx):
         "model_order_dependent_cases": oi_bad, "publish_count_mismatch_cases": cnt_bad,
         "sanitizer_cases": san_n, "sanitizer_disagreements": san_bad, "ndebug_cases": nd_n, "ndebug_disagreements": nd_bad,
         "numberer_call_sequences_checked": sum(1 for j, i in enumerate(sel) if cases[i]["num"] != 0 and kinds[j] == "ok" and cases[i]["del"] != "m"),
-        "exhaustive": False,
+        "audit_defect_probes": defect, "back_to_back_repetitions": b2b_reps, "exhaustive": False,
         "traces_validated_against_impl": len(sel) - nviol - ncorr,
     })
     ctx.assumptions += ["RemoteIndices::rebuild is checked against the pairwise-intersection semantics on every case, not verified here (C04)",
